@@ -131,7 +131,7 @@ def _assemble(c):
 def check_join(tier, out):
     from yarl import URL
     from yarl._url import USES_RELATIVE
-    bkinds = ("a", "b.c", "", ".", "..")
+    bkinds = ("a", "b.c", "", ".", "..", "x%2Fy")
     rkinds = ("a", ".", "..", "", "b.c", "%2e")
     bp_rel = _paths(bkinds, 2)
     base_paths_auth = [""] + ["/" + p for p in bp_rel]
@@ -212,7 +212,7 @@ def _pathlib_suffixes(name):
 
 def check_path_algebra(tier, out):
     from yarl import URL
-    kinds = ("a", "b.c", "", "%2F", "é", "x.tar.gz")
+    kinds = ("a", "b.c", "", "%2F", "é", "x.tar.gz", "n.é", "p.a%20b")
     rel = _paths(kinds, 3 if tier == "quick" else 4)
     bases = []
     for p in [""] + ["/" + r for r in rel]:
@@ -255,6 +255,24 @@ def check_path_algebra(tier, out):
             out.fail("raw_suffix/raw_suffixes are not the tail of raw_name", inp, (u.raw_suffix, u.raw_suffixes),
                      (_pathlib_suffix(u.raw_name), _pathlib_suffixes(u.raw_name)))
         base_parts = parts[:-1] if len(parts) > 1 and parts[-1] == "" else parts
+        # '/' and joinpath always clear the query and the fragment (C11), also when nothing is appended
+        uq = u.with_query("q=1").with_fragment("f")
+        for s in ("", "a", "a/"):
+            try:
+                cq = uq / s
+            except ValueError:
+                continue
+            if cq.raw_query_string != "" or cq.raw_fragment != "":
+                out.fail("u / s kept the query or the fragment", {"url": str(uq), "text": s}, str(cq), "no query, no fragment")
+        cq = uq.joinpath()
+        if cq.raw_query_string != "" or cq.raw_fragment != "":
+            out.fail("u.joinpath() kept the query or the fragment", {"url": str(uq)}, str(cq), "no query, no fragment")
+        if u.host is not None:
+            for a, b2 in (("a", "../b"), ("a", "./b"), ("..", "b"), ("a", "b/.."), ("a.b", "c")):
+                v1, v2, v3 = u.joinpath(a, b2), u.joinpath(a).joinpath(b2), u / (a + "/" + b2)
+                if not (str(v1) == str(v2) == str(v3)):
+                    out.fail("joinpath(a, b), joinpath(a).joinpath(b), u / 'a/b' differ (dot segments)",
+                             {"url": b, "a": a, "b": b2}, (str(v1), str(v2), str(v3)), "equal")
         for s in texts + multi + dots:
             inp = {"url": b, "text": s}
             try:
@@ -467,7 +485,7 @@ def check_decode(tier, out):
                         if out.full:
                             return
     # (c) accessor level: decoded accessors are the unquoters applied to the raw components
-    comps = ("", "a", "a%2Fb", "a%2Bb+c", "%C3%A9", "%E9", "%25", "a%3Db", "%zz", "é")
+    comps = ("", "a", "a%2Fb", "a%2fb", "a%2Bb+c", "%C3%A9", "%c3%a9", "%E9", "%25", "a%3Db", "a%3db", "%zz", "é")
     for c in comps:
         if not out.mine():
             continue
@@ -533,7 +551,7 @@ def check_decode(tier, out):
 def check_human_repr(tier, out):
     from yarl import URL
     specials = ("#", "/", ":", "?", "@", "[", "]", "%", " ", "&", "=", "+", ";", "\x01", "\x7f", "\xe9", "\u044f", "\U0001f600",
-                "a", "\u200b", "\xa0", "\uff0f", "\u2100", "\uff1a")
+                "a", "\u200b", "\xa0", "\uff0f", "\u2100", "\uff1a", "\t", "\n", "\r", "\U00010000", "\uffff")
     texts = [""] + list(specials) + [a + b for a in specials for b in ("a",) + specials[:8]]
     if tier != "quick":
         texts += [a + b for a in specials for b in specials[8:]]
@@ -581,6 +599,9 @@ def check_human_repr(tier, out):
                         continue        # would change the parse in this position: the parser rejects it
                     if ord(ch) > 127 and ch.isprintable() and ch not in h:
                         out.fail("printable non-ASCII text is escaped in human_repr()", inp, h, ch)
+                for ch in t:
+                    if not ch.isprintable() and ch in h:
+                        out.fail("non-printable character shown raw in human_repr()", inp, h, "escaped")
                 if host == "хост.рф" and "хост.рф" not in h:
                     out.fail("IDN host is not shown decoded", inp, h, host)
                 if out.full:
@@ -672,6 +693,8 @@ def check_fixed_point(tier, out):
         inp = {"url": s}
         out.note(str(u) != s, {"url": s, "str": str(u)})
         _fixed(u, inp, out, "parsed")
+        if u.raw_host is not None and any(seg in (".", "..") for seg in u.raw_path.split("/")):
+            out.fail("a parsed URL with an authority keeps a dot segment (C15)", inp, u.raw_path, "no dot segment")
         if out.i % 7 == 0:
             mods = (("with_fragment('a#b')", lambda x: x.with_fragment("a#b")), ("with_path('/p/../q r')", lambda x: x.with_path("/p/../q r")),
                     ("with_query('a=b c')", lambda x: x.with_query("a=b c")), ("with_scheme('https')", lambda x: x.with_scheme("https")),
@@ -689,7 +712,148 @@ def check_fixed_point(tier, out):
             return
 
 
-CHECKS = {"join": check_join, "path_algebra": check_path_algebra, "decode": check_decode, "human_repr": check_human_repr,
+
+# =============================================================== C12: query algebra
+
+def _pairs(u):
+    return [(k, v) for k, v in u.query.items()]
+
+
+def _expand(q):
+    """pairs denoted by a mapping / sequence argument (list or tuple values repeat the key; numbers by str())"""
+    items = q.items() if hasattr(q, "items") else q
+    out = []
+    for k, v in items:
+        if isinstance(v, (list, tuple)):
+            out.extend((k, str(x)) for x in v)
+        else:
+            out.append((k, str(v)))
+    return out
+
+
+def _update_ok(existing, new, got):
+    """the property's update_query clause: every pair whose key occurs in `new` is replaced -- the
+    pairs of the result with such a key are exactly the pairs of `new` (as a multiset, and in new's
+    order per key) -- and every other pair is kept in order; where the new pairs are placed is
+    not specified"""
+    newkeys = {k for k, _ in new}
+    kept_want = [(k, v) for k, v in existing if k not in newkeys]
+    kept_got = [(k, v) for k, v in got if k not in newkeys]
+    repl_got = [(k, v) for k, v in got if k in newkeys]
+    per_key_ok = all([v for k2, v in repl_got if k2 == k] == [v for k2, v in new if k2 == k] for k in newkeys)
+    return kept_got == kept_want and len(repl_got) == len(new) and per_key_ok
+
+
+def check_query_algebra(tier, out):
+    import copy
+    from multidict import MultiDict
+    from yarl import URL
+    keys = ("a", "b", "a&b", "k=v", "p+q", "x;y", "é", "", "a b", "%41")
+    vals = ("1", "", "x y", "&", "=", "+", "é", "%2B", "#")
+    existing_qs = [[], [("a", "1")], [("a", "1"), ("b", "2"), ("a", "3")], [("a&b", "1"), ("k=v", "2")], [("p+q", "x y"), ("", "")],
+                   [("x;y", "+"), ("é", "é"), ("a", "")]]
+    if tier != "quick":
+        existing_qs += [[(k, v)] for k in keys for v in vals[:4]]
+    base = URL("http://h/p#f")
+    for ex_pairs in existing_qs:
+        u = base.with_query(ex_pairs) if ex_pairs else base
+        if _pairs(u) != ex_pairs:
+            out.fail("with_query(pairs) does not yield exactly the pairs", {"pairs": ex_pairs}, _pairs(u), ex_pairs)
+        for k in keys:
+            for v in vals:
+                if not out.mine():
+                    continue
+                out.note(bool(ex_pairs), {"existing": ex_pairs, "key": k, "value": v})
+                forms = (("dict", {k: v}), ("pairs", [(k, v)]), ("MultiDict", MultiDict([(k, v), (k, "2")])),
+                         ("dict-list", {k: [v, "2"]}), ("dict-int", {k: 7}), ("dict-float", {k: 1.5}))
+                for fname, q in forms:
+                    inp = {"existing": ex_pairs, "form": fname, "query": repr(q)}
+                    snapshot = copy.deepcopy(q)
+                    want_new = _expand(q)
+                    try:
+                        w, e, up = u.with_query(q), u.extend_query(q), u.update_query(q)
+                    except Exception as ex:  # noqa: BLE001
+                        out.fail("query operation raised", inp, f"{type(ex).__name__}: {ex}", "a URL")
+                        continue
+                    if q != snapshot:
+                        out.fail("the argument was mutated", inp, q, snapshot)
+                    if _pairs(w) != want_new:
+                        out.fail("with_query(q) != pairs of q", inp, _pairs(w), want_new)
+                    if _pairs(e) != ex_pairs + want_new:
+                        out.fail("extend_query(q) != existing + pairs of q", inp, _pairs(e), ex_pairs + want_new)
+                    if not _update_ok(ex_pairs, want_new, _pairs(up)):
+                        out.fail("update_query(q) does not replace exactly q's keys and keep the other pairs in order", inp, _pairs(up),
+                                 {"kept": [(a, b) for a, b in ex_pairs if a not in {x for x, _ in want_new}], "new": want_new})
+                    for r in (w, e, up):
+                        if (r.scheme, r.raw_authority, r.raw_path, r.raw_fragment) != (u.scheme, u.raw_authority, u.raw_path, u.raw_fragment):
+                            out.fail("a query operation changed another component", inp, str(r), str(u))
+                # kwargs form
+                if k.isidentifier():
+                    if _pairs(u.with_query(**{k: v})) != [(k, v)]:
+                        out.fail("with_query(**kwargs) != the pair", {"key": k, "value": v}, _pairs(u.with_query(**{k: v})), [(k, v)])
+                # without_query_params removes exactly the named keys
+                wq = u.without_query_params(k)
+                want = [(kk, vv) for kk, vv in ex_pairs if kk != k]
+                if _pairs(wq) != want:
+                    out.fail("without_query_params(k) does not remove exactly k", {"existing": ex_pairs, "key": k}, _pairs(wq), want)
+                # string form
+                es = u.extend_query("z=" + "1")
+                if _pairs(es) != ex_pairs + [("z", "1")]:
+                    out.fail("extend_query(str) != existing + pairs", {"existing": ex_pairs}, _pairs(es), ex_pairs + [("z", "1")])
+        # None / rejected values
+        if _pairs(u.with_query(None)) != [] or _pairs(u.update_query(None)) != [] or _pairs(u.extend_query(None)) != ex_pairs:
+            out.fail("None does not clear (with/update) or keep (extend) the query", {"existing": ex_pairs}, "?", "cleared / kept")
+        for bad in (True, None, float("nan"), float("inf"), b"x", bytearray(b"x")):
+            for opname in ("with_query", "extend_query", "update_query"):
+                try:
+                    getattr(u, opname)({"k": bad})
+                except (TypeError, ValueError):
+                    continue
+                except Exception as ex:  # noqa: BLE001
+                    out.fail(f"{opname} raised the wrong exception for a rejected value", {"value": repr(bad)}, type(ex).__name__, "TypeError/ValueError")
+                    continue
+                out.fail(f"{opname} accepted a value that must be rejected", {"value": repr(bad)}, "accepted", "TypeError/ValueError")
+        if out.full:
+            return
+
+def check_build(tier, out):
+    """URL.build over authority / host / port / path alternatives: the result is usable (str, hash,
+    accessors raise nothing but ValueError/TypeError at construction) and is a fixed point (C03, C19)"""
+    from yarl import URL
+    auths = ("", "h", "h:1", "user@h", "user:pw@h:8080", "user@", ":8080", "user:secret@:8080", "[::1]", "[::1]:1", "@", ":")
+    for scheme in ("", "http", "x"):
+        for a in auths:
+            for path in ("", "/p", "p", "/a/../b", "."):
+                for kw in ({"authority": a}, {"host": a.rpartition("@")[2].partition(":")[0]} if a and "[" not in a else None):
+                    if kw is None:
+                        continue
+                    if not out.mine():
+                        continue
+                    args = dict(scheme=scheme, path=path, **kw)
+                    inp = {"build": args}
+                    try:
+                        u = URL.build(**args)
+                    except (ValueError, TypeError):
+                        continue
+                    except Exception as e:  # noqa: BLE001
+                        out.fail("build raised something other than ValueError/TypeError (C19)", inp, f"{type(e).__name__}: {e}", "ValueError/TypeError")
+                        continue
+                    out.note(True, {"build": args, "str": None})
+                    try:
+                        str(u), hash(u), u == u, u.raw_host, u.port, u.raw_path, u.query_string, bool(u), repr(u), u.human_repr()
+                    except Exception as e:  # noqa: BLE001
+                        out.fail("an object returned by build() is unusable (C19)", inp, f"{type(e).__name__}: {e}", "usable URL")
+                        continue
+                    if not (u.scheme in ("http", "https", "ws", "wss", "ftp") and not u.raw_host):
+                        # (a special scheme without a host is not valid input for the parser; build() does not
+                        # check it -- outside C03's "valid input")
+                        _fixed(u, inp, out, "built")
+                    if u.raw_host is not None and any(seg in (".", "..") for seg in u.raw_path.split("/")):
+                        out.fail("a built URL with an authority keeps a dot segment (C15)", inp, u.raw_path, "no dot segment")
+    return
+
+
+CHECKS = {"build": check_build, "query_algebra": check_query_algebra, "join": check_join, "path_algebra": check_path_algebra, "decode": check_decode, "human_repr": check_human_repr,
           "fixed_point": check_fixed_point}
 
 
